@@ -81,6 +81,15 @@ Theorem C10_view_is_union_ser : forall u ls nx ops, Forall layer_ok (u :: ls) ->
   let s := run_dumps ops (load_all (fresh (Some u) ls nx)) in
   ser_opt (view (load_all s)) = ser_opt (merge (all_layers (upper s) (lowers s))).
 Proof. exact view_union_history_ser. Qed.
+(* The model's OPEN takes the whole flag word (access mode and O_TRUNC, O_APPEND, O_CREAT, O_EXCL) and decides
+   "read-only, no copy-up" with the code's own mask, not with the access mode: O_RDONLY|O_TRUNC is NOT read-only. *)
+Example C10_open_mask :
+  of_readonly (mkOF ARD false false false false) = true /\ of_readonly (mkOF ARD false false false true) = true /\
+  of_readonly (mkOF ARD true false false false) = false /\ of_readonly (mkOF ARD false true false false) = false /\
+  of_readonly (mkOF ARD false false true false) = false /\ of_readonly (mkOF AWR false false false false) = false /\
+  of_readonly (mkOF ARW false false false false) = false /\
+  modifying (OOpen ["a"] (mkOF ARD true false false false)) = true.
+Proof. repeat split. Qed.
 Example C10_coh_op_list :
   coh_op (OMkdir ["a"; "b"] 493) = true /\ coh_op (OLookup ["a"]) = true /\ coh_op (OReaddir []) = true /\
   coh_op (OCreate ["a"] 420) = true /\ coh_op (OSymlink ["a"] []) = true /\ coh_op (OUnlink ["a"]) = true /\ coh_op (ORmdir ["a"]) = true /\ coh_op (OWrite ["a"] 0 []) = true /\
